@@ -8,6 +8,7 @@ import NakenVerif.Sim.Tms1000Pc
 import NakenVerif.Sim.I8008Proofs
 import NakenVerif.Sim.Lc3Proofs
 import NakenVerif.Sim.M6502Proofs
+import NakenVerif.Sim.StubsImpl
 
 namespace NakenVerif.C15
 open NakenVerif.Sim
@@ -210,5 +211,68 @@ example : (match M6502.step (fun a => if a = 0xffff then 0x20 else 0) m6502Edge 
     some (0, 0xfe, [(0x100, 0x00), (0x1ff, 0x01)]) := by decide +kernel
 example : (match M6502.step (fun a => if a = 0xffff then 0xa9 else 0) m6502Edge with
     | .ok (o, _, _) => some (o.state.pc, o.state.a) | .fault _ => none) = some (0x10001, 0) := by decide +kernel
+
+/-! ### tms9900 and ebpf: simulators that execute no instruction -/
+
+/-- **tms9900**: the step indexes no array and writes nothing; it returns 0 (stopped, or opcode byte 0: "Stopped") or -1 ("Illegal
+    instruction": every other opcode, nothing is decoded), and advances `pc` by 2 unless `stop_running` was set. -/
+theorem tms9900_step_total (mem : Mem) (s : Tms9900.State) :
+    ((Tms9900.step mem s).ret = 0 ∨ (Tms9900.step mem s).ret = -1) ∧ (Tms9900.step mem s).writes = [] ∧
+      (s.stopRunning = false → (Tms9900.step mem s).state.pc = s.pc + 2) ∧
+      (s.stopRunning = true → (Tms9900.step mem s).state = s) := by
+  unfold Tms9900.step
+  refine ⟨?_, ?_, ?_, ?_⟩
+  · split
+    · exact Or.inl rfl
+    · dsimp only; split
+      · exact Or.inl rfl
+      · exact Or.inr rfl
+  · split
+    · rfl
+    · dsimp only; split <;> rfl
+  · intro h
+    rw [if_neg (by rw [h]; decide)]
+    dsimp only; split <;> rfl
+  · intro h
+    rw [if_pos h]
+
+/-- **ebpf**: `run` prints "CPU not supported." and returns 0; nothing but the static `stop_running` (cleared) changes -/
+theorem ebpf_step_total (mem : Mem) (s : Ebpf.State) :
+    (Ebpf.step mem s).ret = 0 ∧ (Ebpf.step mem s).writes = [] ∧ (Ebpf.step mem s).state = { s with stopRunning := false } :=
+  ⟨rfl, rfl, rfl⟩
+
+theorem ebpf_getRegister_lt (name : List Char) (i : BitVec 32) (h : Ebpf.getRegister name = some i) : i < 16 := by
+  unfold Ebpf.getRegister at h
+  split at h
+  · rename_i r d _
+    split at h
+    · rename_i hc
+      injection h with h
+      subst h
+      have h48 : '0'.toNat = 48 := rfl
+      have h57 : '9'.toNat = 57 := rfl
+      rw [h48, h57] at hc
+      rw [BitVec.lt_def, h48]
+      have h16 : (16 : BitVec 32).toNat = 16 := rfl
+      rw [h16, BitVec.toNat_ofNat]
+      omega
+    · exact absurd h (by simp)
+  · split at h
+    · injection h with h; subst h; decide
+    · exact absurd h (by simp)
+  · exact absurd h (by simp)
+
+/-- ebpf `set_reg` stays inside `int64_t reg[16]` for every register name -/
+theorem ebpf_set_reg_no_fault (s : Ebpf.State) (name : List Char) (v : BitVec 32) : ∃ s', Ebpf.setReg s name v = .ok s' := by
+  unfold Ebpf.setReg
+  split
+  · exact ⟨s, rfl⟩
+  · rename_i i hi
+    have hlt := ebpf_getRegister_lt name i hi
+    rw [arrSet_ok _ _ _ _ (toNat_lt_of_lt i 16 hlt)]
+    exact ⟨_, rfl⟩
+
+example : (Tms9900.step (fun _ => 0x12) { pc := 0xffff, wp := 0, st := 0, stopRunning := false, showOn := false }).ret = -1 ∧
+    (Tms9900.step (fun _ => 0x12) { pc := 0xffff, wp := 0, st := 0, stopRunning := false, showOn := false }).state.pc = 1 := by decide
 
 end NakenVerif.C15
